@@ -59,6 +59,7 @@ PROPS = {
     },
     "C11": {
         "kind": "c11",
+        "jl": True,
         "module": "Props.C11",
         "namespace": "Jl.C11",
         "extra_theorem_files": [("Proofs.CastBin", "Jl"), ("Proofs.LE", "Jl.LE")],
@@ -87,6 +88,7 @@ PROPS = {
     },
     "C01": {
         "kind": "c01,std",
+        "jl": True,
         "module": "Props.C01",
         "namespace": "Jl.C01",
         "extra_theorem_files": [("Proofs.JsonQuote", "Jl.JsonQuote"), ("Proofs.JsonPrint", "Jl.JsonPrint")],
@@ -108,6 +110,7 @@ PROPS = {
     },
     "C03": {
         "kind": "c03",
+        "jl": True,
         "module": "Props.C03",
         "namespace": "Jl.C03",
         "extra_theorem_files": [("Proofs.Order", "Jl.Order"), ("Proofs.LineKeys", "Jl.LineLevel")],
@@ -124,6 +127,7 @@ PROPS = {
     },
     "C04": {
         "kind": "c04",
+        "jl": True,
         "module": "Props.C04",
         "namespace": "Jl.C04",
         "extra_theorem_files": [("Proofs.TimeShape", "Jl.TimeShape"), ("Proofs.LineLevel", "Jl.LineLevel")],
@@ -138,6 +142,7 @@ PROPS = {
     },
     "C02": {
         "kind": "c02",
+        "jl": True,
         "module": "Props.C02",
         "namespace": "Jl.C02",
         "extra_theorem_files": [("Proofs.JsonPrint", "Jl.JsonPrint"), ("Proofs.RoundTrip", "Jl.RoundTrip")],
@@ -153,6 +158,7 @@ PROPS = {
     },
     "C16": {
         "kind": "c16",
+        "jl": True,
         "module": "Props.C16",
         "namespace": "Jl.C16",
         "extra_theorem_files": [("Proofs.JsonAccept", "Jl.JsonAcc"), ("Proofs.JsonLexical", "Jl.JsonLex")],
@@ -169,6 +175,7 @@ PROPS = {
     },
     "C07": {
         "kind": "c07,scan",
+        "jl": True,
         "module": "Props.C07",
         "namespace": "Jl.C07",
         "extra_theorem_files": [("Proofs.Scanner", "Jl.Scanner"), ("Proofs.Stream", "Jl.Stream")],
@@ -185,6 +192,7 @@ PROPS = {
     },
     "C08": {
         "kind": "c08",
+        "jl": True,
         "module": "Props.C08",
         "namespace": "Jl.C08",
         "extra_theorem_files": [("Proofs.Stream", "Jl.Stream")],
@@ -264,6 +272,7 @@ PROPS = {
     },
     "C14": {
         "kind": "c14,std",
+        "jl": True,
         "module": "Props.C14",
         "namespace": "Jl.C14",
         "extra_theorem_files": [("Proofs.Time", "Jl.Time"), ("Proofs.Civil", "Jl.Time")],
